@@ -158,11 +158,16 @@ class Workspace:
     def close(self):
         shutil.rmtree(self.root, ignore_errors=True)
 
-    def materialise(self, files):
+    def materialise(self, files, in_place=False):
+        """in_place: write into the directory of the previous scenario (the same URLs, new contents: a
+        configuration that was corrected and is read again)."""
         if getattr(self, "_last", None) is files:
             return self._last_base
-        self.n += 1
-        base = os.path.join(self.root, "w%d" % (self.n % 50))
+        if in_place and getattr(self, "_last_base", None):
+            base = self._last_base
+        else:
+            self.n += 1
+            base = os.path.join(self.root, "w%d" % (self.n % 50))
         shutil.rmtree(base, ignore_errors=True)
         for name, lines in files.items():
             p = os.path.join(base, name)
